@@ -23,6 +23,7 @@ ASSUMPTIONS = [
     "C02.ZIP: buffered items of an incomplete row are dropped by the destructor, never yielded",
 ]
 RULES = {
+    "C09.CTOR": "entry point: every operand becomes the child of its own position, converted by into_future / into_stream only; nothing reorders, drops or duplicates operands",
     "C09.LIVE": "premises from the wake protocol, re-checked here for this family: task waker registered first, child polled with its own sub-waker (or the caller's context), no readiness lock across a child poll, a cleared bit is followed by a poll, re-arm after an item, readiness primitives / Wake::wake forward correctly",
     "C09.ROW": "Ready(Some) edge => item stored once in the input's own row slot, state Ready on the same index",
     "C09.EMIT": "row returned only under all(is_ready) evaluated after the write; positional, swapped out once, unmodified; states reset, all re-armed; incomplete row => scan continues",
@@ -40,6 +41,8 @@ def run(ctx):
         M = ctx.model(cfg)
         units = families.subwaker_units(M, ("zip",), groups=False)
         c01.live_premises(ctx, M, units, "C09.LIVE")
+        from . import ctors
+        ctors.run_family(ctx, M, units, "C09.CTOR", cfg)
         for u in units:
             rule_row(ctx, M, u)
             with ctx.renamed({"C03.GUARD": "C09.ROW"}):
